@@ -15,6 +15,12 @@ use melstructs::{Address, CoinDataHeight, CoinID, Header, Transaction};
 use thiserror::Error;
 pub use value::*;
 
+/// Verification-harness access to the interpreter (`--cfg melstf_verif` only).
+#[cfg(melstf_verif)]
+pub mod verif_hooks {
+    pub use crate::executor::Executor;
+}
+
 /// Weight calculator from bytes, to use in Transaction::weight etc.
 pub fn covenant_weight_from_bytes(b: &[u8]) -> u128 {
     Covenant::from_bytes(b).map(|b| b.weight()).unwrap_or(0)
